@@ -517,13 +517,44 @@ def strMatch (str pattern : Array Nat) (init : Int) : M (List LV) := do
       pure [.str (← substr str (← capture md 0) (← capture md 1))]
     else pushCaps str md md.size 2
 
-/-- `strGmatch` + every call of `strGmatchIter`: the list of value tuples the iterator yields -/
-def strGmatch (str pattern : Array Nat) : M (List (List LV)) := do
+/-- `strMatchData`: the state the closure returned by `string.gmatch` keeps in its upvalue -/
+structure StrMatchData where
+  str : Array Nat
+  pos : Nat
+  mds : List Caps
+
+/-- `strGmatchIter`: one call of the iterator closure; the values it pushes and the updated upvalue state.
+    An exhausted iterator keeps returning nothing (repo d99b29c). -/
+def strGmatchIter (md : StrMatchData) : M (List LV × StrMatchData) :=
+  let idx := md.pos
+  if idx ≥ md.mds.length then pure ([], md) else
+  let md' := { md with pos := md.pos + 1 }
+  match md.mds[idx]? with
+  | none => throw (.goPanic "strGmatchIter: matches[idx]")
+  | some m => do
+    if m.size = 2 then pure ([.str (← substr md.str (← capture m 0) (← capture m 1))], md')
+    else pure (← pushCaps md.str m m.size 2, md')
+
+/-- `strGmatch`: runs `pm.Find` once and returns the closure (= its initial state) -/
+def strGmatchNew (str pattern : Array Nat) : M StrMatchData := do
   let pattern := if pattern[0]? = some 94 then #[37] ++ pattern else pattern     -- fix C14-gmatch-anchor
   let mds ← liftErr (find maxRecursionLevel pattern str 0 (-1))
-  mds.mapM fun md => do
-    if md.size = 2 then pure [.str (← substr str (← capture md 0) (← capture md 1))]
-    else pushCaps str md md.size 2
+  pure { str := str, pos := 0, mds := mds }
+
+/-- what a generic `for` sees: the tuples the iterator yields until it returns nothing -/
+def strGmatchDrive : Nat → StrMatchData → M (List (List LV))
+  | 0, _ => throw .fuel
+  | n+1, md => do
+    let (vals, md') ← strGmatchIter md
+    if vals.length = 0 then pure []
+    else
+      let rest ← strGmatchDrive n md'
+      pure (vals :: rest)
+
+/-- `string.gmatch` driven to exhaustion: the list of value tuples -/
+def strGmatch (str pattern : Array Nat) : M (List (List LV)) := do
+  let md ← strGmatchNew str pattern
+  strGmatchDrive (md.mds.length + 1) md
 
 def natBytes (n : Nat) : List Nat := (toString n).toList.map (·.toNat)
 
